@@ -49,6 +49,7 @@ type op struct {
 	Out   int    `json:",omitempty"` // 0 Ok 1 ErrNotApplied 2 ErrApplied
 	M     int    `json:",omitempty"`
 	H     string `json:",omitempty"`
+	HS    []string `json:",omitempty"` // stream: the header class of each message on the one stream
 }
 
 func (o op) request(h *pdpb.RequestHeader) *pdpb.BootstrapRequest {
@@ -164,6 +165,12 @@ func (o op) coq() string {
 		return fmt.Sprintf("OMemBegin %d", o.M)
 	case "memfinish":
 		return fmt.Sprintf("OMemFinish %d %s", o.M, outc[o.Out])
+	case "stream":
+		hs := make([]string, len(o.HS))
+		for i, h := range o.HS {
+			hs[i] = hdrCoq(h)
+		}
+		return fmt.Sprintf("OStream %q %s", o.H, coqfmt.List(hs))
 	case "wrong", "call":
 		return fmt.Sprintf("OCall %q %s", o.H, hdrCoq(o.hdr()))
 	}
@@ -382,6 +389,8 @@ func (w *world) exec(o op) string {
 		w.mctl[o.M].Release(emodes[o.Out])
 		w.mpark[o.M] = false
 		return w.memObs(<-w.mdone[o.M])
+	case "stream":
+		return w.stream(o.H, o.HS)
 	case "wrong", "call":
 		return w.call(o.H, o.hdr())
 	}
@@ -442,6 +451,123 @@ func (s *syncStream) Recv() (*pdpb.SyncRegionRequest, error) {
 	s.req = nil
 	return r, nil
 }
+
+// ---------- ONE stream carrying several messages ----------
+type tsoQ struct {
+	fakeStream
+	reqs []*pdpb.TsoRequest
+	got  int
+}
+
+func (s *tsoQ) Send(*pdpb.TsoResponse) error { s.sent++; return nil }
+func (s *tsoQ) Recv() (*pdpb.TsoRequest, error) {
+	if s.got >= len(s.reqs) {
+		return nil, io.EOF
+	}
+	s.got++
+	return s.reqs[s.got-1], nil
+}
+
+type hbQ struct {
+	fakeStream
+	reqs []*pdpb.RegionHeartbeatRequest
+	got  int
+	last *pdpb.RegionHeartbeatResponse
+}
+
+func (s *hbQ) Send(r *pdpb.RegionHeartbeatResponse) error { s.sent++; s.last = r; return nil }
+func (s *hbQ) Recv() (*pdpb.RegionHeartbeatRequest, error) {
+	if s.got >= len(s.reqs) {
+		return nil, io.EOF
+	}
+	s.got++
+	return s.reqs[s.got-1], nil
+}
+
+type syncQ struct {
+	fakeStream
+	reqs []*pdpb.SyncRegionRequest
+	got  int
+}
+
+func (s *syncQ) Send(*pdpb.SyncRegionResponse) error { s.sent++; return nil }
+func (s *syncQ) Recv() (*pdpb.SyncRegionRequest, error) {
+	if s.got >= len(s.reqs) {
+		return nil, io.EOF
+	}
+	s.got++
+	return s.reqs[s.got-1], nil
+}
+
+// stream opens ONE stream of the streaming handler `name` and sends one message per header class of hs on it. The
+// observation lists, per message the handler received, whether it got past the validation: every message the handler
+// came back from to receive the next one was accepted; the last one received is classified by how the handler returned.
+func (w *world) stream(name string, hs []string) (ob string) {
+	got, err, notBoot := 0, error(nil), false
+	func() {
+		defer func() {
+			if r := recover(); r != nil {
+				err = fmt.Errorf("panic past the validation: %v", r)
+			}
+		}()
+		hdr := func(c string) *pdpb.RequestHeader {
+			h := w.header(c)
+			if h != nil {
+				h.SenderId = w.x.S.GetLeader().GetMemberId()
+			}
+			return h
+		}
+		switch name {
+		case "Tso":
+			q := &tsoQ{fakeStream: fakeStream{ctx: w.ctx}}
+			for _, c := range hs {
+				q.reqs = append(q.reqs, &pdpb.TsoRequest{Header: hdr(c), Count: 1})
+			}
+			defer func() { got = q.got }()
+			err = w.x.S.Tso(q)
+		case "RegionHeartbeat":
+			q := &hbQ{fakeStream: fakeStream{ctx: w.ctx}}
+			// well-formed heartbeats of the bootstrapped store's first region, so that an accepted message keeps the stream open
+			var sid, rid uint64
+			if r, err := w.x.S.GetClient().Get(w.ctx, w.x.S.GetClusterRootPath()+"/s/", clientv3.WithPrefix()); err == nil && len(r.Kvs) > 0 {
+				k := string(r.Kvs[0].Key)
+				fmt.Sscanf(k[len(k)-20:], "%d", &sid)
+				rid = sid + 1000
+			}
+			peer := &metapb.Peer{Id: sid + 2000, StoreId: sid}
+			for _, c := range hs {
+				q.reqs = append(q.reqs, &pdpb.RegionHeartbeatRequest{Header: hdr(c), Leader: peer,
+					Region: &metapb.Region{Id: rid, Peers: []*metapb.Peer{peer}}})
+			}
+			defer func() {
+				got = q.got
+				notBoot = q.last != nil && q.last.GetHeader().GetError().GetType() == pdpb.ErrorType_NOT_BOOTSTRAPPED
+			}()
+			err = w.x.S.RegionHeartbeat(q)
+		case "SyncRegions":
+			q := &syncQ{fakeStream: fakeStream{ctx: w.ctx}}
+			for _, c := range hs {
+				q.reqs = append(q.reqs, &pdpb.SyncRegionRequest{Header: hdr(c),
+					Member: &pdpb.Member{Name: "verif", MemberId: 1, ClientUrls: []string{"http://127.0.0.1:1"}}})
+			}
+			defer func() { got = q.got }()
+			err = w.x.S.SyncRegions(q)
+		default:
+			panic("not a streaming handler: " + name)
+		}
+	}()
+	var obs []string
+	for i := 0; i < got; i++ {
+		if i < got-1 {
+			obs = append(obs, "BAccepted")
+		} else {
+			obs = append(obs, classifyWrong(err, notBoot))
+		}
+	}
+	return "BStream " + coqfmt.List(obs)
+}
+
+var streamHandlers = []string{"Tso", "RegionHeartbeat", "SyncRegions"}
 
 // handlerNames: every exported method of *server.Server that takes a pdpb request or a pdpb stream
 func handlerNames(s *server.Server) []string {
@@ -754,7 +880,14 @@ func (w *world) genCase(r *rng.R, kind int, maxOps int) caseRec {
 				w.step(&c, op{K: "stop"})
 				return true
 			default:
-				if r.Pct(25) {
+				if r.Pct(35) {
+					// one stream, several messages, the header class changing between them
+					o := op{K: "stream", H: streamHandlers[r.Intn(3)]}
+					for k := 1 + r.Intn(4); k > 0; k-- {
+						o.HS = append(o.HS, pickHdr(r, 35))
+					}
+					w.step(&c, o)
+				} else if r.Pct(25) {
 					w.step(&c, op{K: "call", H: safeWithRightID[r.Intn(len(safeWithRightID))]})
 				} else {
 					hs := handlerNames(w.x.S)
@@ -851,6 +984,20 @@ func directed(handlers []string) [][]op {
 		wr = append(wr, op{K: "boot", T: 2, PK: "valid", Hdr: c})
 	}
 	all = append(all, wr)
+	// stream histories: the header class changes between the messages of ONE stream
+	var sh []op
+	hist := [][]string{{"", "", "wrong"}, {"", "nil"}, {"", "zero", ""}, {"nil"}, {"wrong", ""}, {"", "", "", "nil", ""}, {"", ""}}
+	for round := 0; round < 2; round++ {
+		for _, h := range streamHandlers {
+			for _, hs := range hist {
+				sh = append(sh, op{K: "stream", H: h, HS: hs})
+			}
+		}
+		if round == 0 {
+			sh = append(sh, op{K: "boot", T: 0, PK: "valid"})
+		}
+	}
+	all = append(all, sh)
 	return all
 }
 
@@ -988,6 +1135,11 @@ func main() {
 			if o.K == "boot" || o.K == "begin" {
 				R.Count("payload:" + o.PK)
 				R.Count("boot-header:" + map[string]string{"": "right", "nil": "none", "zero": "id-0", "wrong": "other-id"}[o.hdr()])
+			}
+			if o.K == "stream" {
+				for _, h := range o.HS {
+					R.Count("stream-message-header:" + map[string]string{"": "right", "nil": "none", "zero": "id-0", "wrong": "other-id"}[h])
+				}
 			}
 			if o.K == "call" || o.K == "wrong" {
 				R.Count("call-header:" + map[string]string{"": "right", "nil": "none", "zero": "id-0", "wrong": "other-id"}[o.hdr()])
